@@ -214,6 +214,9 @@ def parse_raw_http(data: bytes) -> Union[HttpRequest, HttpResponse]:
 
     headers = {}
     for header in header_data.split(b"\r\n"):
+        if not header:
+            # message without header lines
+            continue
         key, _, value = header.partition(b": ")
         headers[key] = value
 
